@@ -15,7 +15,9 @@ EPS = np.finfo(float).eps
 
 
 def seg_int(s):
-    return 0 if s in (0, "approach") else 1
+    if s in ("approach", "retract"):
+        return 0 if s == "approach" else 1
+    return int(s)
 
 
 def observe(idnt, kw, meta):
@@ -196,6 +198,54 @@ def batches(ctx, lines, keep):
                 keep.append((obs, meta))
 
 
+def special_cases(ctx, lines, keep):
+    """(a) curves recorded with a dwell: three segments, the retract has index 2; (b) minimisations that the
+    optimiser gives up on (a budget of function evaluations that is too small): whatever `success` says, the
+    columns must be consistent with it"""
+    rng = ctx.rng
+    for i in range(6 if ctx.tier == "quick" else 80):
+        mk = rng.choice(fitlib.MODELS[:4])
+        truth = fitlib.truth_params(mk, rng, cp=0.0)
+        kind = ["dwell-seg2", "dwell-seg0", "budget", "dwell-seg2-range", "budget-nelder", "dwell-seg1"][i % 6]
+        p0 = copy.deepcopy(truth)
+        p0["E"].set(value=truth["E"].value * rng.uniform(0.6, 1.6))
+        if kind.startswith("dwell"):
+            idnt = fitlib.synth_curve_dwell(mk, truth, rng, noise=rng.choice([0.0, 2e-11]), seed=9000 + i)
+            seg = {"dwell-seg2": 2, "dwell-seg0": 0, "dwell-seg2-range": 2, "dwell-seg1": 1}[kind]
+            kw = dict(model_key=mk, params_initial=p0, range_type="absolute",
+                      range_x=(-6e-7, 4e-7) if kind == "dwell-seg2-range" else (0, 0), segment=seg,
+                      weight_cp=rng.choice([0, 5e-7]), gcf_k=1.0, preprocessing=[])
+        else:
+            idnt = fitlib.synth_curve(mk, truth, rng, n_app=200, n_ret=100, noise=2e-11, seed=9000 + i)
+            p0["contact_point"].set(value=3e-7)
+            kw = dict(model_key=mk, params_initial=p0, range_type="absolute", range_x=(0, 0), segment=0,
+                      weight_cp=0, gcf_k=1.0, preprocessing=[],
+                      method="nelder" if kind == "budget-nelder" else "leastsq",
+                      method_kws={"max_nfev": rng.choice([2, 4, 6])})
+        meta = {"stream": "special", "kind": kind, "fit_model": mk, "range_type": "absolute", "gcf_k": 1.0,
+                "weight_cp": kw["weight_cp"], "segment": str(kw["segment"]), "range_x": list(kw["range_x"]),
+                "method_kws": kw.get("method_kws", {})}
+        res, rec = fitlib.fit(idnt, **copy.deepcopy(kw))
+        if res != "ok":
+            ctx.case({**meta, "result": res}, bucket=["stream=special", "kind=" + kind, "result=" + res])
+            if kind.startswith("dwell") and kind != "dwell-seg1":
+                ctx.violation(f"fit-raises:{kind}", f"fitting segment {kw['segment']} of a three-segment curve raises "
+                              f"({res})", {"input": meta})
+            continue
+        obs = observe(idnt, kw, meta)
+        ctx.case({**meta, "success": obs["success"]}, nontrivial=json.dumps(meta, sort_keys=True),
+                 bucket=["stream=special", "kind=" + kind, f"success={obs['success']}"])
+        oracle(ctx, obs, kw, meta)
+        if obs["used"] is not None:
+            # the points used lie in the requested segment
+            if np.any(obs["used"] & ~obs["seg"]):
+                ctx.violation(f"points-outside-segment:{kind}", f"{int(np.sum(obs['used'] & ~obs['seg']))} fitted points are "
+                              f"not in the requested segment {kw['segment']}", {"input": meta})
+            if len(obs["x"]) <= 700:
+                lines.append(model_line(obs, kw))
+                keep.append((obs, meta))
+
+
 def run(ctx):
     ctx.trusted = TRUST_COMMON + [
         "hand-written models lean/Nanite/Model/Residual.lean and Fitter.lean of compute_contact_point_weights/"
@@ -234,6 +284,7 @@ def run(ctx):
             lines.append(model_line(obs, kw))
             keep.append((obs, meta))
     batches(ctx, lines, keep)
+    special_cases(ctx, lines, keep)
     out = ctx.driver("Fit", lines) if lines else None
     if out is not None:
         for (obs, meta), o in zip(keep, out):
